@@ -73,7 +73,7 @@ pub fn run_check(id: &str, tier: Tier) -> i32 {
             if parts.iter().all(|p| p.failure.is_none()) {
                 // the decoder's half of staying in sync: a block that arrives in fragments must leave the same fields and
                 // the same table as the block in one piece
-                parts.push(run_engine(&runner::Reattributed { inner: SplitEngine, from: "C11", to: "C10", label: "decoder-across-fragments" }, &ctx, scale(tier, 60_000, 1_000_000)));
+                parts.push(run_engine(&runner::Reattributed { inner: SplitEngine, from: "C11", to: "C10", label: "decoder-across-fragments", only: "" }, &ctx, scale(tier, 60_000, 1_000_000)));
             }
             assumptions.push("reference decoder (refmodel::hpack) implements RFC 7541 correctly; validated against the third-party fixture stories by `h2v selftest`".into());
             assumptions.push("table-size changes are applied to encoder and decoders at the same history position (what the SETTINGS ACK rule guarantees on a connection)".into());
@@ -131,6 +131,11 @@ pub fn run_check(id: &str, tier: Tier) -> i32 {
             parts.push(run_engine(&PairEngine { focus: Focus::Resets }, &ctx, scale(tier, 16_000, 300_000)));
             if parts.iter().all(|p| p.failure.is_none()) {
                 parts.push(run_engine(&PairEngine { focus: Focus::Coop }, &ctx, scale(tier, 8_000, 200_000)));
+            }
+            if id == "C05" && parts.iter().all(|p| p.failure.is_none()) {
+                // the receive side against a scripted peer: streams over the advertised limit (also while the endpoint's
+                // writes are blocked), frames for refused streams, refused identifiers opened again
+                parts.push(run_engine(&runner::Reattributed { inner: CatalogueServerEngine, from: "C09", to: "C05", label: "refusal", only: "concurrency-limit|refused-stream" }, &ctx, scale(tier, 60_000, 300_000)));
             }
             if id == "C17" && parts.iter().all(|p| p.failure.is_none()) {
                 // peer-side failures (transport errors of every kind, GOAWAY, shutdown) surfacing on the handles
